@@ -70,14 +70,14 @@ def witnesses(ctx):
     always replayed on the real code: a code base that has the defect follows the counterexample and the monitor sees the
     consequence; the correct code leaves the schedule at the defective step (drift, expected) and finishes normally."""
     # (a) puppet-replayable (Handoff) counterexample: atomic-step walk
-    r = ctx.tlc(SPEC, "Wit_LPopNoRecheck.cfg", module="MC_ReadyQueue", timeout=600, expect_fail=True, workers=2, name="wit-lpop")
+    r = ctx.tlc(SPEC, "Wit_LPopNoRecheck.cfg", module="MC_ReadyQueue", timeout=600, expect_fail=True, workers=1, name="wit-lpop")
     if r.violated != "NotHidden":
         raise vlib.Infra("Wit_LPopNoRecheck.cfg no longer yields a NotHidden counterexample (%s)" % r.violated)
     walk = [{"a": a, "args": args, "wk": wk} for a, args, wk in counterexample_steps(r)]
     if len(walk) < 10 or not any(s["a"] == "StealStore2" for s in walk):
         raise vlib.Infra("could not parse the LPopNoRecheck counterexample")
     # (b) counterexample that needs pushes between a Signal and the wake-up (not gateable): operation-level projection
-    r = ctx.tlc(SPEC, "Wit_SignalOnFirstOnly.cfg", module="MC_ReadyQueue", timeout=600, expect_fail=True, workers=2, name="wit-signal")
+    r = ctx.tlc(SPEC, "Wit_SignalOnFirstOnly.cfg", module="MC_ReadyQueue", timeout=600, expect_fail=True, workers=1, name="wit-signal")
     if r.violated != "NoSleepWhileGlobalWork":
         raise vlib.Infra("Wit_SignalOnFirstOnly.cfg no longer yields a NoSleepWhileGlobalWork counterexample (%s)" % r.violated)
     ops = []
